@@ -266,6 +266,11 @@ def constant_applications():
         yield ("BVZero(%d)" % w, lambda m, w=w: m.BVZero(w), (BV(w), 0))
         yield ("BVOne(%d)" % w, lambda m, w=w: m.BVOne(w), (BV(w), 1))
     yield ("BV(1) without width", lambda m: m.BV(1), None)
+    # SMT-LIB: (_ BitVec m) with m > 0
+    for w in (0, -1):
+        yield ("BV(0, %d)" % w, lambda m, w=w: m.BV(0, w), None)
+        yield ("BVZero(%d)" % w, lambda m, w=w: m.BVZero(w), None)
+        yield ("Symbol(BVType(%d))" % w, lambda m, w=w: m.Symbol("zw", m.env.type_manager.BVType(w)), None)
     for v, ok in ((0, True), (-7, True), (2 ** 70, True), (1.5, False), (1.0, False), (Fraction(1, 2), False),
                   (Fraction(2), False), ("1", False), (True, False), (None, False)):
         yield ("Int(%r)" % (v,), lambda m, v=v: m.Int(v), (INT, v) if ok else None)
@@ -284,7 +289,7 @@ def shard_constants():
     # each application in a fresh environment and, again, in one that already holds equal-valued constants of
     # other sorts (the constant caches are keyed by value)
     for warm in (False, True):
-        for label, thunk, expected in constant_applications():
+        for label, thunk, expected in itertools.chain(constant_applications(), array_default_valued_entries()):
             env = Environment()
             with env:
                 m = env.formula_manager
@@ -312,6 +317,11 @@ def shard_constants():
                              "%s raised %s: %s" % (lab, type(raised).__name__, raised))
                     continue
                 ty, v = expected
+                if v is None:
+                    if pys.from_ptype(r.get_type()) != ty:
+                        run.fail({"subcheck": "constant:wrong-constant", "ctor": label.split("(")[0]}, case,
+                                 "%s returned %s : %s, expected sort %r" % (lab, r, r.get_type(), ty))
+                    continue
                 if not r.is_constant() or pys.from_ptype(r.get_type()) != ty or r.constant_value() != v \
                         or (isinstance(v, bool) != isinstance(r.constant_value(), bool)):
                     run.fail({"subcheck": "constant:wrong-constant", "ctor": label.split("(")[0]}, case,
@@ -325,6 +335,16 @@ def sstr(x):
         return str(x)
     except BaseException as e:         # noqa
         return "<unprintable node: %s>" % type(e).__name__
+
+
+def array_default_valued_entries():
+    """Array(idx, d, {k: d}) : an entry equal to the default is dropped - its key must be type-checked first."""
+    for it in (INT, BV(4), REAL):
+        for kt in (INT, BV(4), REAL, BOOL, STRING):
+            yield ("Array(%s, 0, {%s-constant: 0})" % (tystr(it), tystr(kt)),
+                   lambda m, it=it, kt=kt: m.Array(pys.to_ptype(m.env, it), m.Int(0),
+                                                    {pys.build_const(m.env, kt, "a" if kt == STRING else _zero(kt)): m.Int(0)}),
+                   (ARR(it, INT), None) if kt == it else None)
 
 
 def _zero(t):
